@@ -7,6 +7,11 @@ use std::collections::BTreeMap;
 
 pub type Sol = BTreeMap<String, ATerm>;
 
+thread_local! {
+    /// set when the reference met an operator application that SPARQL 1.1 leaves to extensions
+    pub static UNSPECIFIED: std::cell::Cell<bool> = const { std::cell::Cell::new(false) };
+}
+
 #[derive(Clone, Debug, PartialEq)]
 pub enum TP {
     Var(String),
@@ -191,6 +196,13 @@ fn ebv(t: &ATerm) -> Option<bool> {
         _ => None,
     }
 }
+/// both operands are string-like literals and at least one carries a language tag
+fn lang_string_comparison(a: &Option<ATerm>, c: &Option<ATerm>) -> bool {
+    match (a, c) {
+        (Some(ATerm::Lit(d1, l1, _)), Some(ATerm::Lit(d2, l2, _))) => (l1.is_some() || l2.is_some()) && (d1 == RDF_LANGSTRING || d1 == XSD_STRING) && (d2 == RDF_LANGSTRING || d2 == XSD_STRING),
+        _ => false,
+    }
+}
 fn b(x: bool) -> ATerm {
     ATerm::typed(if x { "true" } else { "false" }, &format!("{XSD}boolean"))
 }
@@ -224,6 +236,12 @@ pub fn eval(e: &Expr, s: &Sol) -> Option<ATerm> {
         Eq(x, y) => eq(&eval(x, s)?, &eval(y, s)?).map(b),
         Neq(x, y) => eq(&eval(x, s)?, &eval(y, s)?).map(|r| b(!r)),
         Lt(x, y) => match (val(&eval(x, s)?), val(&eval(y, s)?)) {
+            _ if lang_string_comparison(&eval(x, s), &eval(y, s)) => {
+                // '<' involving a language-tagged string is a gap of the SPARQL 1.1 operator table
+                // that an implementation may fill (extensibility, section 17.3.1): no verdict
+                UNSPECIFIED.with(|u| u.set(true));
+                None
+            }
             (Val::Int(p), Val::Int(q)) => Some(b(p < q)),
             (Val::Str(p), Val::Str(q)) => Some(b(p < q)),
             (Val::Bool(p), Val::Bool(q)) => Some(b(!p & q)),
